@@ -57,4 +57,75 @@ theorem merge_anywhere (es₁ es₂ : List Event) (sids : List Nat) (n : Nat) (i
 theorem docCount_merge_anywhere (r : Snap) (sids : List Nat) (n : Nat) :
     docCount (mergeSegs r sids n) = docCount r := merge_docCount r sids n
 
+/-! ## the whole content, not one lookup at a time
+
+`layout_independent` fixes an id; the statements below lift it to the observable content as a whole:
+the set of live documents of two layouts of the same batches is the same up to order (so `DocCount`,
+every enumeration and every answer computed from the live documents agree), and re-batching the same
+operations (one batch cut in two) changes nothing either. -/
+
+/-- two association lists with distinct keys that answer every lookup alike hold the same entries -/
+theorem perm_of_lookup_eq (l₁ l₂ : List (Bytes × Bytes)) (h₁ : (l₁.map (·.1)).Nodup) (h₂ : (l₂.map (·.1)).Nodup)
+    (h : ∀ k, l₁.lookup k = l₂.lookup k) : l₁.Perm l₂ := by
+  have nd : ∀ (l : List (Bytes × Bytes)), (l.map (·.1)).Nodup → l.Nodup := by
+    intro l hl
+    exact List.Pairwise.of_map (·.1) (fun a b hab e => hab (by rw [e])) hl
+  apply (List.perm_ext_iff_of_nodup (nd l₁ h₁) (nd l₂ h₂)).2
+  intro ⟨k, v⟩
+  constructor
+  · intro hm
+    have := lookup_some_of_mem l₁ k v h₁ hm
+    rw [h k] at this
+    exact mem_of_lookup_some l₂ k v this
+  · intro hm
+    have := lookup_some_of_mem l₂ k v h₂ hm
+    rw [← h k] at this
+    exact mem_of_lookup_some l₁ k v this
+
+/-- **Layout independence of the whole content**: same batches, any merges ⇒ the live documents of the
+    two roots are the same multiset. -/
+theorem layout_independent_content (es₁ es₂ : List Event) (h₁ : WellFormed es₁) (h₂ : WellFormed es₂)
+    (hb : batchesOf es₁ = batchesOf es₂) : (liveDocs (run es₁)).Perm (liveDocs (run es₂)) :=
+  perm_of_lookup_eq _ _ (reachable_refines es₁ [] h₁).2 (reachable_refines es₂ [] h₂).2
+    (fun k => layout_independent es₁ es₂ k h₁ h₂ hb)
+
+/-- … hence the same `DocCount` -/
+theorem layout_independent_docCount (es₁ es₂ : List Event) (h₁ : WellFormed es₁) (h₂ : WellFormed es₂)
+    (hb : batchesOf es₁ = batchesOf es₂) : docCount (run es₁) = docCount (run es₂) :=
+  (layout_independent_content es₁ es₂ h₁ h₂ hb).length_eq
+
+/-- **Re-batching**: two histories whose batch lists replay to the same content (whatever the cut
+    points) answer every lookup alike and count the same documents. -/
+theorem rebatch_independent (es₁ es₂ : List Event) (h₁ : WellFormed es₁) (h₂ : WellFormed es₂)
+    (hb : ∀ id, replay (batchesOf es₁) id = replay (batchesOf es₂) id) :
+    (∀ id, lookup (run es₁) id = lookup (run es₂) id) ∧ docCount (run es₁) = docCount (run es₂) := by
+  have hl : ∀ id, lookup (run es₁) id = lookup (run es₂) id := by
+    intro id
+    rw [(reachable_refines es₁ id h₁).1, (reachable_refines es₂ id h₂).1, hb id]
+  exact ⟨hl, (perm_of_lookup_eq _ _ (reachable_refines es₁ [] h₁).2 (reachable_refines es₂ [] h₂).2 hl).length_eq⟩
+
+/-- cutting one batch with distinct ids in two consecutive batches replays to the same content -/
+theorem replayLast_split (b₁ b₂ : Batch) (rest : List Batch) (id : Bytes)
+    (hn : ((b₁ ++ b₂).map (·.1)).Nodup) :
+    replay.replayLast (b₁ :: b₂ :: rest) id = replay.replayLast ((b₁ ++ b₂) :: rest) id := by
+  simp only [replay.replayLast]
+  cases replay.replayLast rest id with
+  | some v => rfl
+  | none =>
+    simp only [batchSays, List.lookup_append]
+    cases h2 : b₂.lookup id with
+    | none => simp
+    | some v =>
+      cases h1 : b₁.lookup id with
+      | none => simp
+      | some w =>
+        exfalso
+        rw [List.map_append, List.nodup_append] at hn
+        have m1 : id ∈ b₁.map (·.1) := List.mem_map_of_mem (f := (·.1)) (mem_of_lookup_some b₁ id w h1)
+        have m2 : id ∈ b₂.map (·.1) := List.mem_map_of_mem (f := (·.1)) (mem_of_lookup_some b₂ id v h2)
+        exact hn.2.2 id m1 id m2 rfl
+
+example : docCount (run [.batch [([1], some [10]), ([2], some [20])] 1, .batch [([1], none)] 2, .merge [1, 2] 3])
+    = docCount (run [.batch [([1], some [10]), ([2], some [20])] 7, .batch [([1], none)] 9]) := by decide
+
 end Bleve.Snapshot
